@@ -152,6 +152,10 @@ func ensureValidRule(p *Prog, c *Check, vrule string) {
 			{"$bc.Threshold <= len($bc.Keypers)"},
 			{"$bc.Threshold != 0", "0 < $bc.Threshold", "1 <= $bc.Threshold"},
 			{"len($bc.Keypers) != 0", "0 < len($bc.Keypers)", "1 <= len($bc.Keypers)"},
+			// thresholds, vote counts and block-seen quorums are counted per ENTRY of the keyper list:
+			// they mean "per keyper" only if a valid configuration lists nobody twice (the genesis
+			// configuration does not pass through BatchConfigFromMessage, which de-duplicates messages)
+			{"EnsureUniqueAddresses($bc.Keypers) == nil"},
 		} {
 			found := false
 			for _, ps := range alt {
